@@ -114,7 +114,7 @@ def install_ghosts(I, dyn_getattr=True, getitem=True):
                 return None
             ln = getattr(node, "lineno", None)
             out = []
-            for cls in (TypeError, KeyError, IndexError):
+            for cls in (TypeError, KeyError, IndexError, AttributeError):  # an AttributeError out of __getitem__ is a failed lookup too
                 s1 = st.fork()
                 e = Exc(cls, (), tag="getitem", origin=ln)
                 s1.trace.append(Event("call", "builtin.getitem", [o, k], result=e, lineno=ln))
@@ -510,8 +510,8 @@ class Gate(VC):
 
     getattr (docs: "prefer the attribute"):  v = builtin getattr(obj, name)
         ok      -> unsafe_undefined(obj, name) unless is_safe_attribute(obj, name, v);  else wrap_str_format(v) if that is not None;  else v
-        AttributeError -> obj[name] if that works; on TypeError/LookupError undefined(obj=obj, name=name)
-    getitem (docs: "prefer the item"): obj[key] if that works; on TypeError/LookupError, for a string key the attribute branch
+        AttributeError -> obj[name] if that works; on TypeError/LookupError/AttributeError undefined(obj=obj, name=name)
+    getitem (docs: "prefer the item"): obj[key] if that works; on TypeError/LookupError/AttributeError, for a string key the attribute branch
         above with name = str(key), and undefined(obj=obj, name=key) when there is no such attribute or the key is no string.
     """
     prop = "C17"
@@ -1586,6 +1586,8 @@ class DoRound(VC):
             I.specs[("binop", op)] = lambda I_, st, args, kwargs, node: [(st, fresh("num", "obj"))]
         I.specs["call_obj"] = lambda I_, st, args, kwargs, node: [(st, fresh("called", "obj"))]
         I.specs[("fn", id(round))] = lambda I_, st, args, kwargs, node: [(st, fresh("rounded", "obj"))]
+        I.specs[("fn", id(float))] = lambda I_, st, args, kwargs, node: [(st, fresh("as_float", "obj"))]
+        I.specs[("fn", id(math.isfinite))] = lambda I_, st, args, kwargs, node: [(st, fresh("isfinite", "bool"))]
         I.specs[("fn", id(F.t.cast))] = lambda I_, st, args, kwargs, node: [(st, args[1])]
 
     def setup(self, I, st):
